@@ -154,7 +154,7 @@ func render(c *clause) {
 var errRe1 = regexp.MustCompile(`^in act (\d+): cannot use \+ at beginning of act`)
 var errRe2 = regexp.MustCompile(`^in act (\d+): cannot use \+ at end of act`)
 var errRe3 = regexp.MustCompile(`^in act (\d+): sequence \+\+ is invalid`)
-var errRe4 = regexp.MustCompile(`^in act (\d+), scene . not defined`)
+var errRe4 = regexp.MustCompile(`(?s)^in act (\d+), scene . not defined`)
 
 func errCode(msg string) int64 {
 	for k, re := range []*regexp.Regexp{errRe1, errRe2, errRe3, errRe4} {
@@ -209,7 +209,9 @@ func fullText(sc *scriptCase) string {
 			b.WriteString("end\nscript\n")
 			continue
 		}
-		b.WriteString("  " + c.Line + "\n")
+		// a clause that holds newlines is written over several lines with the
+		// reader's backslash continuation (which leaves the newline in place)
+		b.WriteString("  " + strings.Replace(c.Line, "\n", "\\\n", -1) + "\n")
 	}
 	b.WriteString("end\n")
 	return b.String()
@@ -499,6 +501,9 @@ func (g *gen) cast() []castEntry {
 	return c
 }
 
+// separators between acts that are more than blanks (every one contains a blank)
+var wsSeps = []string{" \n            ", " \t", "\n ", " \n\t ", "  \n", " \n \n  ", "\t \t"}
+
 // hire returns 1-2 further cast entries whose names are not in use yet.
 func (g *gen) hire(cast []castEntry) []castEntry {
 	used := map[string]bool{}
@@ -654,8 +659,12 @@ func (g *gen) randomScript(stream string) *scriptCase {
 		if g.chance(0.04) {
 			t = g.spoil(t, scenes)
 		}
-		if g.chance(0.02) {
-			t = strings.Replace(t, " ", " \t", 1)
+		if g.chance(0.08) {
+			// acts separated by more than blanks: continuation lines, tabs
+			t = strings.Replace(t, " ", g.pick(wsSeps), 1+g.rng.Intn(3))
+		}
+		if g.chance(0.01) {
+			t = strings.Replace(t, " ", g.pick([]string{"\t", "\n", "\n\t"}), 1) // no blank in the run: outside the oracle's domain
 		}
 		cl = append(cl, clause{Kind: "story", Text: t})
 		if g.chance(0.2) {
@@ -1072,7 +1081,7 @@ func main() {
 			scripts = append(scripts, smallScript("single-clause", []string{t}, nil, "1s"))
 		}
 	} else {
-		for i := 0; i < 500; i++ {
+		for i := 0; i < 450; i++ {
 			scripts = append(scripts, smallScript("single-clause", []string{clauseTexts[rng.Intn(len(clauseTexts))]}, nil, g.pick(tempos)))
 		}
 	}
@@ -1099,7 +1108,7 @@ func main() {
 			}
 		}
 	}
-	nsmall := 750
+	nsmall := 650
 	if thorough {
 		nsmall = 40000
 	}
@@ -1129,7 +1138,7 @@ func main() {
 	}
 	// (2b) edits that reshape the storyline: literal replacements introducing
 	//      `+`, `.`, `_`, blanks, and real regular expressions, between clauses
-	nshape := 400
+	nshape := 350
 	if thorough {
 		nshape = 15000
 	}
@@ -1199,8 +1208,66 @@ func main() {
 		runScript(sc)
 		scripts = append(scripts, sc)
 	}
+	// (2d) storyline clauses written over several lines / with tabs: the same
+	//      acts as on one line
+	nml := 200
+	if thorough {
+		nml = 8000
+	}
+	for i := 0; i < nml; i++ {
+		nc := 1 + rng.Intn(3)
+		var texts []string
+		for j := 0; j < nc; j++ {
+			t := pickAct()
+			for k, n := 0, 1+rng.Intn(3); k < n; k++ {
+				sep := " "
+				if g.chance(0.75) {
+					sep = g.pick(wsSeps)
+				}
+				t += sep + pickAct()
+			}
+			texts = append(texts, t)
+		}
+		var edits []clause
+		if g.chance(0.2) {
+			edits = append(edits, g.shapeEdit())
+		}
+		scripts = append(scripts, smallScript("multi-line", texts, edits, g.pick(tempos)))
+	}
+	// (2e) a storyline seeded by edits: the first clauses are edits of the EMPTY
+	//      storyline with patterns that match the empty string
+	nef := 200
+	if thorough {
+		nef = 8000
+	}
+	emptyRx := []rx{rxCat(rxBol(), rxEol()), rxBol(), rxEol(), rxEps(), rxStar(true, rxChr('a')), rxAlt(rxChr('a'), rxEps()), rxStar(false, rxAny())}
+	for i := 0; i < nef; i++ {
+		cast, cl := smallDefs()
+		t := g.pick(tempos)
+		d, _ := time.ParseDuration(t)
+		sc := &scriptCase{Stream: "edits-first", Cast: cast, TempoNs: int64(d)}
+		cl = append(cl, clause{Kind: "tempo", Text: t})
+		r := emptyRx[rng.Intn(len(emptyRx))]
+		seed := pickAct()
+		if g.chance(0.5) {
+			seed += " " + pickAct()
+		}
+		cl = append(cl, clause{Kind: "pedit", Pat: r.pat, Ast: r.ast, Repl: seed})
+		if g.chance(0.5) {
+			cl = append(cl, g.shapeEdit())
+		}
+		for g.chance(0.6) {
+			cl = append(cl, clause{Kind: "story", Text: pickAct()})
+			if g.chance(0.3) {
+				cl = append(cl, g.shapeEdit())
+			}
+		}
+		sc.Clauses = cl
+		runScript(sc)
+		scripts = append(scripts, sc)
+	}
 	// (3) random larger scripts
-	nrand := 650
+	nrand := 600
 	if thorough {
 		nrand = 30000
 	}
